@@ -51,6 +51,10 @@ Record doc := { d_models : list str; d_tags : list (str * list str) }.
 
 Definition pkg_prefix (fl : flavour) (pkg : str) : path := match fl with FNone => [] | _ => [pkg] end.
 
+(* Project._run_command: post hooks run with cwd = project_dir, which is the output directory itself in every flavour
+   (for FNone project_dir = package_dir = the output directory; its PARENT is outside) *)
+Definition hook_cwd (fl : flavour) (pkg : str) : path := [].
+
 Definition package_files (fl : flavour) (pkg : str) : list path :=
   let pp := pkg_prefix fl pkg in
   [pp ++ [f_init]] ++ (match fl with FNone => [] | _ => [pp ++ [f_pytyped]] end) ++ [pp ++ [f_types]].
